@@ -12,7 +12,7 @@ Lemma acquire_lock_spec : forall s s' g, acquire_lock s = (s', g) ->
      (exists c k r, og = Some (c, k, r) /\ g = [(c, k, r)] /\ locked s' = r :: locked s /\ avail s' = pred (avail s))).
 Proof.
   intros s s' g H. unfold acquire_lock in H.
-  rewrite <- (app_nil_r (queue s)) in H at 2. rewrite acquire_scan in H.
+  rewrite acquire_scan in H.
   destruct (scan_q (queue s) [] (locked s) (dead s)) as [q' og] eqn:E.
   exists q', og. split; [reflexivity|].
   destruct og as [[[c k] r]|]; inversion H; subst; cbn [queue dead locked avail].
